@@ -7,7 +7,9 @@ ROOT=os.path.dirname(os.path.dirname(os.path.abspath(__file__)))
 RUNNER_SIGS=["sample-committed-before-series-record","delete-misses-ooo-head-samples","delete-hides-later-ooo-append",
  "wbl-sample-orphaned-by-checkpoint","head-delete-lost-after-compaction-and-restart","ooo-block-merged-raises-restart-bound",
  "stale-marker-conversion-reorders-commit"]
-USERS={"C02":"","C20":"hist-","C52":""}
+USERS={"C02":"","C20":"hist-","C52":"","C03":""}
+# C03 replays wrap the history into a crash case (kill at the last hook hits: everything acknowledged)
+C03_SIGS=[x for x in RUNNER_SIGS if x!="stale-marker-conversion-reorders-commit"]
 # C04 C06 C22 C23 C53 discard histories that fail the runner's own check; they list only the sigs they raise themselves.
 d=json.load(open(os.path.join(ROOT,'known_findings.json')))
 base={}
@@ -19,12 +21,15 @@ keep=[f for f in d['findings'] if not (f['property'] in USERS and f['sig'] in RU
 for prop,prefix in USERS.items():
     if not os.path.isdir(os.path.join(ROOT,'replays',prop)) and prop not in ('C02','C20'):
         continue
-    for sig in RUNNER_SIGS:
+    for sig in (C03_SIGS if prop=="C03" else RUNNER_SIGS):
         src=os.path.join(ROOT,'replays','C01','known-%s.json'%sig)
         if not os.path.exists(src): continue
         os.makedirs(os.path.join(ROOT,'replays',prop),exist_ok=True)
         dst=os.path.join(ROOT,'replays',prop,'%sknown-%s.json'%(prefix,sig))
-        shutil.copyfile(src,dst)
+        if prop=="C03":
+            json.dump({"H":json.load(open(src)),"Kills":[1.0,0.97]},open(dst,'w'))
+        else:
+            shutil.copyfile(src,dst)
         e=dict(base[sig]); e['property']=prop; e['replay']=os.path.relpath(dst,ROOT)
         keep.append(e)
 d['findings']=keep
